@@ -255,11 +255,73 @@ def instances_are_independent(acc, plan, cname):
             cname, [x[:2] for x in want][:12], hdr, [x[:2] for x in got][:12], hdr2), {"plan": plan.describe()})
 
 
+REAL_APP_IDS = [16777236, 16777238, 16777264, 16777265, 16777251, 16777272, 4, 0]
+
+
+def order_independence(acc, g, b):
+    """What a typed class builds from given arguments may not depend on which other classes were used before in the process.
+    The plans (every class, plus the classes that take their Application-ID from an argument once per real application) are
+    built in two forked children of a parent that has built nothing yet - one in this order, one in the reverse order - and the
+    outcomes (built / refused, header triple, AVP codes in order) are compared plan by plan."""
+    import json as _json
+    import os as _os
+    classes = sorted(((l, c) for l, c in discover.message_classes()), key=lambda x: (x[0], x[1].__name__))
+    plans = []
+    for lib, cls in classes:
+        plans.append(msggen.make_plan(g, lib, cls, subset="random"))
+        names = [p.name for p in msggen.params_of(cls)]
+        if "auth_application_id" in names:
+            for app in REAL_APP_IDS:
+                pl = msggen.make_plan(g, lib, cls, subset="all" if g.rng.random() < 0.5 else "random")
+                pl.kwargs["auth_application_id"] = app if g.rng.random() < 0.5 else app.to_bytes(4, "big")
+                plans.append(pl)
+    g.rng.shuffle(plans)
+
+    def outcomes(order):
+        rfd, wfd = _os.pipe()
+        pid = _os.fork()
+        if pid == 0:
+            out = {}
+            try:
+                _os.close(rfd)
+                for i in order:
+                    try:
+                        m = plans[i].build()
+                        out[i] = ["built", m.header.get_command_code(), m.header.get_application_id(), m.header.get_flags(), [a.get_code() for a in m.avps]]
+                    except BaseException as ex:
+                        out[i] = ["refused", type(ex).__name__]
+                with _os.fdopen(wfd, "w") as f:
+                    _json.dump(out, f)
+            finally:
+                _os._exit(0)
+        _os.close(wfd)
+        with _os.fdopen(rfd) as f:
+            data = f.read()
+        _os.waitpid(pid, 0)
+        return {int(k): v for k, v in _json.loads(data).items()} if data else None
+    fwd = outcomes(list(range(len(plans))))
+    rev = outcomes(list(reversed(range(len(plans)))))
+    if fwd is None or rev is None:
+        acc.inconclusive.append("order-independence child produced nothing")
+        return
+    for i, pl in enumerate(plans):
+        acc.evaluations += 1
+        acc.counters["order_independence_plans"] += 1
+        if fwd.get(i) != rev.get(i):
+            acc.violation("construction-depends-on-what-was-built-before:%s.%s" % (pl.lib, pl.cls.__name__),
+                          "%s.%s(%s): %r when built in one order, %r in the reverse order" % (pl.lib, pl.cls.__name__, sorted(pl.kwargs), fwd.get(i), rev.get(i)),
+                          {"plan": pl.describe(), "forward": fwd.get(i), "reverse": rev.get(i)})
+    acc.sigs.add("order-independence/%d" % b["seed"])
+
+
 def run_batch(b):
     acc = harness.Acc()
     g = Gen(b["seed"])
     if b["kind"] == "static":
         static_checks(acc)
+        return acc
+    if b["kind"] == "order":
+        order_independence(acc, g, b)
         return acc
     classes = {(l, c.__name__): c for l, c in discover.message_classes()}
     for lib, cname in b["classes"]:
@@ -300,6 +362,8 @@ def main(tier, seed):
         for rep in range(1 if q else 4):
             batches.append({"kind": "classes", "classes": classes[i:i + per], "n": 120 if q else 2500, "full": not q,
                             "seed": seed * 104729 + i * 10 + rep})
+    for i in range(4 if q else 64):
+        batches.append({"kind": "order", "seed": seed * 104729 + 7000 + i})
     acc = harness.run_workers("checks.c09_typed_commands", "run_batch", batches, 1500)
     per_class = acc.extra.get("per_class_built", {})
     zero = ["%s.%s" % c for c in classes if not per_class.get("%s.%s" % c)]
@@ -310,7 +374,7 @@ def main(tier, seed):
                            "the base ASR/RAR and SWm DER/DEA take the header Application-ID from their auth_application_id argument (library rule)",
                            "values of defaulted arguments are judged by class and position only",
                            "valid argument sets the library rejects with an exception are observed, not judged"],
-                          t0, require_counters=("built", "judged", "omission_rejected", "static"))
+                          t0, require_counters=("built", "judged", "omission_rejected", "static", "order_independence_plans"))
 
 
 def replay(w):
